@@ -489,11 +489,7 @@ func init() {
 			if i >= nLattice+nSeeds+nMut {
 				// directed families (small ones completely, a stride of the big ones): shapes whose rule bodies return
 				// long, unusual or hostile details - what the framework reports must be what the body returned
-				dC, tail, j := directedCount(c), directedSmallTail(c), i-nLattice-nSeeds-nMut
-				k := dC - 1 - j
-				if j >= tail {
-					k = dC - tail - 1 - (j-tail)*c.Pick(23, 3) - int(uint64(c.Seed)%uint64(c.Pick(23, 3)))
-				}
+				k := directedPick(c, i-nLattice-nSeeds-nMut)
 				if k < 0 {
 					return
 				}
